@@ -454,6 +454,39 @@ pub fn run(cfg: &RunCfg, rep: &mut Report) {
             }
         }
 
+        // extended keys at the BIP-32 depth limit: depth + path (+1 for a wildcard) up to 255 is
+        // derivable and must parse and round trip; one more must be refused, never panic later
+        if i % 8 == 0 {
+            let mut xpub = world.xpub;
+            let d = 245 + rng.below(11) as u8;
+            xpub.depth = d;
+            let room = 255usize - d as usize;
+            for (extra, wildcard) in [(room, false), (room.saturating_sub(1), true), (room + 1, false), (room, true)] {
+                let total = d as usize + extra + wildcard as usize;
+                let ks = format!("{}{}{}", xpub, "/1".repeat(extra), if wildcard { "/*" } else { "" });
+                let pk = |s: &str| DescriptorPublicKey::from_str(s).map_err(|e| e.to_string());
+                rep.eval();
+                match guarded(|| pk(&ks)) {
+                    Ok(Ok(k)) => {
+                        if total > 255 {
+                            rep.violation(i, "C10:key-beyond-bip32-depth-accepted".into(), format!("{} (depth {} + {} steps{}) parses", ks, d, extra, if wildcard { " + wildcard" } else { "" }));
+                        } else {
+                            roundtrip(rep, i, "DescriptorPublicKey-at-depth-limit", &ks, &pk);
+                            let _ = k;
+                        }
+                    }
+                    Ok(Err(e)) => {
+                        if total <= 255 {
+                            rep.violation(i, "C10:derivable-key-refused".into(), format!("{} (depth {} + {} steps{} = {} <= 255) is refused: {}", ks, d, extra, if wildcard { " + wildcard" } else { "" }, total, e));
+                        } else {
+                            rep.count("key-beyond-bip32-depth-refused");
+                        }
+                    }
+                    Err(m) => rep.violation(i, format!("C10:panic:parse:depth-limit:{}", norm_loc(&last_panic_loc())), format!("{} on {}", m, ks)),
+                }
+            }
+        }
+
         // D. policies
         let nm = AbstractPolNames;
         let pcfg = PolGenCfg { max_leaves: 8, n_keys: 6, n_hash: 2, concrete: true, constants: rng.coin(), repeat_atoms: true, timelocks: true, hashes: true, max_depth: 4, timelock_heavy: false };
